@@ -136,6 +136,39 @@ Behaviour(c) ==
                                                   CASE rs[k].member = "in" -> 1 [] rs[k].member = "out" -> 0 [] OTHER -> [null |-> TRUE]>>]] >>]
 
 (***************************************************************************)
+(* C07 -- the acceleration shortcuts of slabs and faults (Mech), on this    *)
+(* family: a point is discarded before any geometry is computed if          *)
+(*   depth - min depth > maximum total length + maximum thickness           *)
+(*   (PreFixF5: depth > ...), or if its surface position is outside the     *)
+(*   bounding box of the trench coordinates extended by that same buffer.   *)
+(* Prop: a member is never discarded.                                       *)
+(***************************************************************************)
+CONSTANT PreFixF5
+MaxThick(c) == IF c.thick[1] > c.thick[2] THEN c.thick[1] ELSE c.thick[2]
+Buffer(c) == TotalLen(c) + MaxThick(c)
+(* surface position of plane point (s, w) x 5 and the trench bounding box x 5, in lattice units *)
+SurfX5(c, s, w) == 5 * O[1] + w * TDir(c)[1] + s * NDir(c)[1]
+SurfY5(c, s, w) == 5 * O[2] + w * TDir(c)[2] + s * NDir(c)[2]
+Min2(a, b) == IF a < b THEN a ELSE b
+Max2(a, b) == IF a > b THEN a ELSE b
+MechCulled(c, s, z, w) ==
+  \/ (IF PreFixF5 THEN z ELSE z - c.mind) > Buffer(c)
+  \/ SurfX5(c, s, w) < Min2(SurfX5(c, 0, 0), SurfX5(c, 0, 50)) - 5 * Buffer(c)
+  \/ SurfX5(c, s, w) > Max2(SurfX5(c, 0, 0), SurfX5(c, 0, 50)) + 5 * Buffer(c)
+  \/ SurfY5(c, s, w) < Min2(SurfY5(c, 0, 0), SurfY5(c, 0, 50)) - 5 * Buffer(c)
+  \/ SurfY5(c, s, w) > Max2(SurfY5(c, 0, 0), SurfY5(c, 0, 50)) + 5 * Buffer(c)
+CullingSound(c) == \A s \in ProbeS, z \in ProbeZ, w \in ProbeW : Member(c, <<s, z>>) = "in" => ~MechCulled(c, s, z, w)
+
+(* differential replay: the same world with the shortcuts neutralised (GWB_VERIF hook) must answer bit-identically,
+   on a grid that extends well beyond the buffer *)
+CullRows(c) == LET ps == SetToSeq({5 * k : k \in -6..7} \X {4 * k : k \in 0..9} \X {-20, 10, 25, 70}) IN
+               [k \in 1..Len(ps) |-> <<Pos(c, ps[k][1], ps[k][3])[1], Pos(c, ps[k][1], ps[k][3])[2], HM - ps[k][2] * U, ps[k][2] * U>>]
+CullBehaviour(c) ==
+  [id |-> <<"cull", c>>, labels |-> <<"culling", c.kind, "straight">>,
+   steps |-> << [op |-> "create", h |-> 1, wb |-> Doc(c)], [op |-> "create", h |-> 2, wb |-> Doc(c), culling |-> FALSE],
+                [op |-> "qtable", h |-> 1, h2 |-> 2, dim |-> 3, props |-> <<PT, PC(1), PTag>>, rows |-> CullRows(c)] >>]
+
+(***************************************************************************)
 (* Machine: segment tables are built one segment per step                   *)
 (***************************************************************************)
 VARIABLE cfg
@@ -149,5 +182,7 @@ ChainOK == \A i \in 1..(Len(cfg.segs) - 1) :
               LET e == <<Start(cfg, i)[1] + cfg.segs[i].len * Dip5[cfg.segs[i].dip][1], Start(cfg, i)[2] + cfg.segs[i].len * Dip5[cfg.segs[i].dip][2]>>
               IN e = Start(cfg, i + 1)
 FaultHasNoTruncation == cfg.kind = "fault" => TRUE
+CullOK == CullingSound(cfg)
+EmitCull == (cfg.kind = "fault" /\ cfg.trunc # <<0, 0>>) \/ PrintT(<<"B", ToJson(CullBehaviour(cfg))>>)
 Emit == (cfg.kind = "fault" /\ cfg.trunc # <<0, 0>>) \/ PrintT(<<"B", ToJson(Behaviour(cfg))>>)
 =============================================================================
